@@ -204,21 +204,26 @@ def check_refs(case, agg):
     # ---- (c) results reference used as the file name
     if case["method"] in ("collect_paths", "collect_by_line"):
         rds = cps.run_dirs("src")
-        for which, pick in ((":last", rds[-1]), (":first", rds[0])):
+        scenarios = [(":last", rds[-1], "replay"), (":first", rds[0], "replay")]
+        if not two:
+            # a replay inside the referenced group itself: the run in progress is not its own ':last'
+            scenarios.append((":last", rds[-1], "src"))
+        for which, pick, runner in scenarios:
             ref = f"$src.results.2025-03-{which}.src"
             c10._NOW["t"] = c10.advance(c10._NOW["t"], "+1s")
             with hooks.recording(agg) as rec2:
-                lines, exc = cps.run_method(cs, "collect_paths", "replay", ref)
+                lines, exc = cps.run_method(cs, "collect_paths", runner, ref)
             if exc is not None:
                 w["exc"] = f"{type(exc).__name__}: {str(exc)[:200]}"
                 w["reference"] = ref
-                return "results-reference-raises", w
+                w["run_by_group"] = runner
+                return "results-reference-raises" + ("-same-group" if runner == "src" else ""), w
             want_rows = cps.read_csv(os.path.join("archive", "src", pick, "src", "data.csv"))
             read = [[str(v) for v in ev["line"]] for ev in rec2.lines]
             agg.count("references_checked")
             if read != want_rows:
-                w.update({"reference": ref, "read": read[:5], "referenced_data.csv": want_rows[:5], "run_dirs": rds})
-                return "results-reference-replay" + which.replace(":", "-"), w
+                w.update({"reference": ref, "run_by_group": runner, "read": read[:5], "referenced_data.csv": want_rows[:5], "run_dirs": rds})
+                return "results-reference-replay" + which.replace(":", "-") + ("-same-group" if runner == "src" else ""), w
     return None, None
 
 
